@@ -1,7 +1,7 @@
 (* Property C05 -- theorems only (R instance of Model/FitCore.v; the binary64
    instance of the same definitions is what the correspondence executes). *)
 From Coq Require Import Reals List Arith.
-From NV Require Import Model.FitCore Model.Rater Proofs.FitCoreP.
+From NV Require Import Base.Exn Model.FitCore Model.Rater Proofs.FitCoreP Model.Plateau Model.PlateauF Proofs.PlateauP Proofs.PlateauWitnessP.
 Import ListNotations.
 Local Open Scope R_scope.
 
@@ -58,3 +58,28 @@ Theorem C05_optimal_depth_in_grid : forall lo hi ys, ys <> [] ->
   Forall (fun y => lo <= y <= hi) ys ->
   lo <= wavg (map (fun _ => 1) ys) ys <= hi.
 Proof. exact mean_in_range. Qed.
+
+(* ---- plateau selection after the Butterworth filter (Model/Plateau.v; the filtered
+   moduli are the input, scipy's filter is an oracle) ---------------------------------- *)
+(* whatever scalar type and comparison: the selection returns a stretch of the scanned
+   samples -- both ends exist and are in order and carry the same sequence label -- so the
+   reported depth (the sample, or the mean over the stretch) lies inside the scanned depths
+   (with C05_optimal_depth_in_grid) *)
+Theorem C05_plateau_indices : forall (T : Type) add sub mul div abs ltb of_nat (zero : T) smooth i0 i1,
+  Plateau.plateau T add sub mul div abs ltb of_nat zero smooth = Ok (i0, i1) ->
+  (i0 <= i1 < length smooth)%nat /\
+  exists labs k, length labs = length smooth /\ nth i0 labs (S k) = k /\ nth i1 labs (S k) = k.
+Proof. exact PlateauP.plateau_indices. Qed.
+
+(* kernel-checked witness of the observation in DESIGN.md (section 5): after the longest
+   sequence was dropped for lying below the bin size, the label taken is an index into the
+   SHORTENED list of counts -- here label 8 (four samples) instead of label 9 (fourteen).
+   The depth still lies inside the scanned depths; no clause of C05 is violated. *)
+Theorem C05_plateau_observation :
+  Plateau.bincount PlateauWitnessP.ex_labs = [33; 5; 2; 3; 3; 3; 2; 3; 4; 14]%nat /\
+  PlateauF.f_plateau PlateauWitnessP.smooth_example = Ok (54, 57)%nat /\
+  Plateau.first_index 9 PlateauWitnessP.ex_labs 0 = Some 58%nat.
+Proof.
+  destruct PlateauWitnessP.plateau_pop_shifts_label as [H1 [_ [H3 [_ H5]]]].
+  split; [exact H1 | split; [exact H5 | exact H3]].
+Qed.
